@@ -87,6 +87,14 @@ func putCase(w *bufio.Writer, flags, mok, appc, code, rn, mod, event int, v vari
 	w.WriteByte('\n')
 }
 
+func putSend(w *bufio.Writer, flags, mok, appc, code, rn, mod, event int, v variant) {
+	fmt.Fprintf(w, "3 %d %d %d %d %d %d %d %d %d %d", flags, mok, appc, code, rn, mod, event, v.shifted, v.base, len(v.text))
+	for _, t := range v.text {
+		fmt.Fprintf(w, " %d", t)
+	}
+	w.WriteByte('\n')
+}
+
 func putBucket(w *bufio.Writer, flags, mok, appc, code, rn int, v variant) {
 	fmt.Fprintf(w, "2 %d %d %d %d %d %d %d %d", flags, mok, appc, code, rn, v.shifted, v.base, len(v.text))
 	for _, t := range v.text {
@@ -128,7 +136,11 @@ func genQuick(w *bufio.Writer, seed uint64, n int) {
 		if r.n(100) == 0 {
 			event = 4 + r.n(252)
 		}
-		putCase(w, flags, r.n(3), r.n(2), code, rn, r.n(256), event, sampleVariant(r))
+		mod, vr, mok, appc := r.n(256), sampleVariant(r), r.n(3), r.n(2)
+		putCase(w, flags, mok, appc, code, rn, mod, event, vr)
+		if i%8 == 0 {
+			putSend(w, flags, mok, appc, code, rn, mod, event, vr)
+		}
 	}
 }
 
@@ -169,6 +181,34 @@ func newTerm() *termemu.VerifTerm {
 	return vt
 }
 
+// shortBackend accepts at most [take] bytes per Write and reports the short count without an error (a pipe or pty
+// under back-pressure does that); SendKey must still deliver the whole sequence (it goes through Terminal.Write).
+type shortBackend struct {
+	take int
+	got  []byte
+}
+
+func (b *shortBackend) Read(p []byte) (int, error) { select {} }
+func (b *shortBackend) Write(p []byte) (int, error) {
+	n := len(p)
+	if b.take > 0 && n > b.take {
+		n = b.take
+	}
+	b.got = append(b.got, p[:n]...)
+	return n, nil
+}
+func (b *shortBackend) SetSize(w, h int) error { return nil }
+
+func newShortTerm() (*termemu.VerifTerm, *shortBackend) {
+	be := &shortBackend{}
+	vt := termemu.VerifNew(&termemu.EmptyFrontend{}, be, termemu.TextReadModeRune, false, false)
+	if vt == nil {
+		fmt.Fprintln(os.Stderr, "harness-keys: VerifNew failed")
+		os.Exit(1)
+	}
+	return vt, be
+}
+
 func setState(vt *termemu.VerifTerm, flags, mok, appc int) {
 	vt.VerifSetKbdFlags(flags)
 	vt.VerifSetViewInt(termemu.VIModifyOtherKeys, mok)
@@ -188,6 +228,7 @@ func runes(l []int) []rune {
 
 func run() {
 	vt := newTerm()
+	svt, sbe := newShortTerm()
 	sc := bufio.NewScanner(os.Stdin)
 	sc.Buffer(make([]byte, 1<<20), 1<<20)
 	w := bufio.NewWriterSize(os.Stdout, 1<<20)
@@ -226,6 +267,28 @@ func run() {
 			for _, b := range out {
 				fmt.Fprintf(w, " %d", b)
 			}
+		case v[0] == 3 && len(v) >= 11:
+			// the same event through the public SendKey on a terminal whose backend takes 1..4 bytes per Write:
+			// the bytes that arrived, then -3, the count SendKey returned and whether it returned an error
+			n := v[10]
+			text := v[11:]
+			if n < len(text) {
+				text = text[:n]
+			}
+			setState(svt, v[1], v[2], v[3])
+			sbe.take = 1 + (v[4]+v[5]+v[6])%4
+			sbe.got = sbe.got[:0]
+			cnt, err := svt.Terminal().SendKey(termemu.KeyEvent{Code: termemu.KeyCode(v[4]), Rune: rune(v[5]), Mod: termemu.KeyMod(v[6]),
+				Event: termemu.KeyEventType(v[7]), Shifted: rune(v[8]), BaseLayout: rune(v[9]), Text: runes(text)})
+			w.WriteString(" -1")
+			for _, b := range sbe.got {
+				fmt.Fprintf(w, " %d", b)
+			}
+			e := 0
+			if err != nil {
+				e = 1
+			}
+			fmt.Fprintf(w, " -3 %d %d", cnt, e)
 		case v[0] == 2 && len(v) >= 9:
 			n := v[8]
 			text := v[9:]
